@@ -47,6 +47,8 @@ CONFIGS = [
     {'id': ['Foo'], 'sym': ['fo', 'foo']},
     {'id': ['G', 'Foo'], 'sym': ['g', 'foo']},
     {'id': ['Foo'], 'sym': ['my_foo']},
+    {'id': ['Foo'], 'sym': ['foo'], 'inc': ['GObject-2.0', 'FooBar-1.0']},
+    {'id': ['Foo', 'Bar'], 'sym': ['foo', 'bar'], 'inc': ['FooBar-1.0', 'GObject-2.0']},
 ]
 
 
@@ -85,7 +87,8 @@ def _case(draw):
     nfun = draw(st.integers(2, 10))
     for i in range(nfun):
         shape = draw(st.sampled_from(['method', 'method', 'ctor', 'ctor', 'static', 'near-miss', 'wrong-first', 'plain', 'hidden',
-                                      'foreign', 'unprefixed', 'ctor-other-ret', 'ptrptr-first', 'value-first', 'foreign-first']))
+                                      'foreign', 'unprefixed', 'ctor-other-ret', 'ptrptr-first', 'value-first', 'foreign-first',
+                                      'include-extends-prefix']))
         t = draw(st.sampled_from(types))
         sp = draw(st.sampled_from(symp))
         verb = draw(st.sampled_from(VERBS))
@@ -200,6 +203,10 @@ def build(case):
             # carries the prefix of a type of an *included* namespace and takes it first: stays a function here
             fo = [('object', 'GObject'), ('initially_unowned', 'GInitiallyUnowned'), ('closure', 'GClosure')][f['idx'] % 3]
             name, ret, params = '%s_%s_%s' % (sp, fo[0], verb), ty('void', 'void'), [param('self', T(fo[1], 1))]
+        elif shape == 'include-extends-prefix':
+            # also matches the longer symbol prefix foo_bar of the included namespace FooBar (when it is
+            # included): the namespace being scanned takes precedence
+            name, ret, params = '%s_bar_%s' % (sp, verb), ty('int'), [param('v', ty('int'))]
         elif shape == 'plain':
             name, ret, params = '%s_%s' % (sp, verb), ty('int'), [param('v', ty('int'))]
         elif shape == 'hidden':
@@ -265,7 +272,7 @@ def check_case(case, ctx):
     cfg = case['cfg']
     full = {'ns': {'name': 'Foo', 'version': '1.0', 'id_prefixes': cfg['id'], 'sym_prefixes': cfg['sym'],
                    'accept_unprefixed': case['accept']},
-            'includes': ['GObject-2.0'], 'decls': decls, 'comments': [], 'dump': dump_xml}
+            'includes': cfg.get('inc', ['GObject-2.0']), 'decls': decls, 'comments': [], 'dump': dump_xml}
     try:
         res = pipeline.run(full, ctx.mkscratch())
     except Exception as e:
@@ -391,6 +398,8 @@ def check_case(case, ctx):
         elif f['shape'] in ('near-miss', 'wrong-first', 'ptrptr-first', 'value-first', 'ctor-other-ret'):
             missed += 1
     ctx.label('cfg:%s' % '+'.join(cfg['id']))
+    if 'inc' in cfg:
+        ctx.label('include-extends-prefix')
     if case['accept']:
         ctx.label('accept-unprefixed')
     if paired:
